@@ -53,6 +53,19 @@ INLINE = {}
 _inline_guard = set()
 
 
+def helpers(facts, prefix, exclude=(), max_nodes=120):
+    """private-looking synchronous functions under `prefix` small enough to be spliced into their callers by Enum(inline=..)"""
+    out = {}
+    for f in facts.fns_matching("^" + prefix.replace("<", r"\\<").replace(">", r"\\>")):
+        th = getattr(f, "thir", None)
+        if not th or f.kind not in ("method", "fn") or getattr(f, "asyncness", False) or f.def_ in exclude:
+            continue
+        if sum(1 for n in thir.walk(thir.root(f)) if isinstance(n, dict)) > max_nodes:
+            continue
+        out[f.def_] = f
+    return out
+
+
 def accessors(facts, prefix, max_nodes=14):
     """single-expression, non-async functions whose def path starts with `prefix`: candidates for INLINE"""
     out = {}
@@ -313,10 +326,42 @@ class Limit(Exception):
 
 
 class Enum:
-    def __init__(self, max_paths=20000, interesting=None):
+    def __init__(self, max_paths=20000, interesting=None, inline=None):
         self.max_paths = max_paths
         self.interesting = interesting  # optional predicate on call def; None = all calls recorded
         self.count = 0
+        # helper functions (def path -> Fn with THIR) whose paths are spliced in at their call sites, parameters read as the arguments
+        self.inline = inline or {}
+        self._inlining = set()
+
+    def _spliced(self, key, e):
+        g = self.inline[key]
+        th = getattr(g, "thir", None)
+        if not th or key in self._inlining:
+            return None
+        params = []
+        for pr in th.get("params", []):
+            pat = pr.get("pat") or {}
+            if pat.get("k") != "bind" or "sub" in pat:
+                return None
+            params.append(pat["n"])
+        if len(params) != len(e["a"]):
+            return None
+        global SUBST
+        saved = SUBST
+        SUBST = dict(saved)
+        for pn, an in zip(params, e["a"]):
+            SUBST[pn] = {"k": "described", "d": desc(an)}
+        self._inlining.add(key)
+        try:
+            out = []
+            for q in self.paths(thir.root(g)):
+                # a `return` of the helper is an ordinary value where it was called
+                out.append(P(q.ev, "val" if q.out in ("val", "ret") else q.out, q.val))
+            return out
+        finally:
+            self._inlining.discard(key)
+            SUBST = saved
 
     def seq(self, exprs, tail=None):
         """paths through exprs evaluated in order"""
@@ -386,6 +431,12 @@ class Enum:
                     res.append(p)
                     continue
                 evs = []
+                if dp is not None and self.inline and dp in self.inline:
+                    sp = self._spliced(dp, e)
+                    if sp is not None:
+                        for q in sp:
+                            res.append(p.then(q))
+                        continue
                 if dp is None:
                     evs.append(("call", "<indirect>", Ref(e)))
                 elif self.interesting is None or self.interesting(dp):
